@@ -41,7 +41,8 @@ pub fn run_as(cfg: &RunCfg, prop: &'static str, nseq: u64) -> Report {
     let mut lean = if cfg.use_lean { Some(LeanDriver::spawn("reward").expect("lean driver")) } else { None };
     let mut seen = HashSet::new();
     let steps = if cfg.thorough() { 120 } else { 40 };
-    'seqs: for seq in 0..nseq {
+    let seqs: Vec<u64> = match cfg.only_seq { Some(k) => vec![k], None => (0..nseq).collect() };
+    'seqs: for seq in seqs {
         let mut r = seq_rng(cfg.seed ^ 0x5eed_0f_4e3a4d, seq);
         let mut c = Chain::new(5);
         let cm = c.create_miner(0, 1, &TokenAmount::from_whole(100));
@@ -143,7 +144,7 @@ pub fn run_as(cfg: &RunCfg, prop: &'static str, nseq: u64) -> Report {
             let burnt1 = c.w.balance(&BURNT_FUNDS_ACTOR_ADDR);
             let miner1 = c.w.balance(&miner);
             let hdr = vec![
-                format!("property {} (reward sub-campaign) seed {} seq {}", prop, cfg.seed, seq),
+                format!("property {} (reward sub-campaign) seed {} seq {} (re-run: ba_harness {} --seed {} --only-seq {})", prop, cfg.seed, super::seq_label(seq), prop.to_lowercase(), cfg.seed, super::seq_label(seq)),
                 format!("failing step {}: {}  -> exit {} {}", step, line, res.code, res.message),
             ];
             let mut viol = |rep: &mut Report, kind: &str, detail: String, lines: &Vec<String>| {
